@@ -675,7 +675,7 @@ def check(run, mods, wd, rnd) -> dict:
                              "problem": "the rule no longer changes this program (the model says it does)"})
     for fid, (f, hits) in sorted(reproduced.items()):
         h = hits[0]
-        run.known_finding(fid, f"{f.text} [{len(hits)} instances, e.g. {h['source']!r}: {h['before']} -> {h['after']}]"[:900])
+        run.known_finding(fid, f"{f.text} [{len(hits)} instances, e.g. {h['source']!r}: {h['before']!r} -> {h['after']!r}]"[:900])
     for f in kf:
         if f.kind == "finding" and f.id.startswith("F02idx") and f.id not in reproduced:
             common.log(f"note: known finding {f.id} no longer reproduces")
